@@ -185,6 +185,64 @@ pub async fn refuses(ep: &zeromq::Endpoint) -> bool {
     }
 }
 
+/// Runs one E4 case on a runtime and a thread of its own and waits for it at most `deadline`. `None` means the case
+/// did not come back: a runtime thread is blocked for ever (then not even the case's own timeouts fire). The thread is
+/// abandoned; the caller should report the case and end the process soon (exiting is what gets rid of the thread).
+pub fn block_on_deadline<T, F, Fut>(workers: usize, deadline: Duration, f: F) -> Option<T>
+where
+    T: Send + 'static,
+    F: FnOnce() -> Fut + Send + 'static,
+    Fut: std::future::Future<Output = T>,
+{
+    let (tx, rx) = std::sync::mpsc::channel();
+    let _ = std::thread::Builder::new().name("e4-case".into()).spawn(move || {
+        let rt = runtime(workers);
+        let r = rt.block_on(f());
+        let _ = tx.send(r);
+        rt.shutdown_timeout(Duration::from_millis(200));
+    });
+    rx.recv_timeout(deadline).ok()
+}
+
+/// Hard per-case deadline: a failing case waits out a handful of 5 s horizons; nothing legitimate takes this long.
+pub const CASE_DEADLINE: Duration = Duration::from_secs(120);
+
+/// Runs a child process of this executable and collects its stdout, killing it after `deadline`.
+pub fn child_output(args: &[&str], deadline: Duration) -> Result<(bool, String), String> {
+    let exe = std::env::current_exe().map_err(|e| e.to_string())?;
+    let mut ch = std::process::Command::new(exe)
+        .args(args)
+        .stdin(std::process::Stdio::null())
+        .stdout(std::process::Stdio::piped())
+        .stderr(std::process::Stdio::inherit())
+        .spawn()
+        .map_err(|e| e.to_string())?;
+    let mut out = ch.stdout.take().ok_or("no stdout")?;
+    let reader = std::thread::spawn(move || {
+        let mut s = String::new();
+        let _ = std::io::Read::read_to_string(&mut out, &mut s);
+        s
+    });
+    let t0 = Instant::now();
+    loop {
+        match ch.try_wait() {
+            Ok(Some(st)) => {
+                let s = reader.join().unwrap_or_default();
+                return Ok((st.success(), s));
+            }
+            Ok(None) => {
+                if t0.elapsed() > deadline {
+                    let _ = ch.kill();
+                    let _ = ch.wait();
+                    return Err(format!("child {:?} did not finish within {} s and was killed", args, deadline.as_secs()));
+                }
+                std::thread::sleep(Duration::from_millis(20));
+            }
+            Err(e) => return Err(e.to_string()),
+        }
+    }
+}
+
 pub fn runtime(workers: usize) -> tokio::runtime::Runtime {
     if workers == 0 {
         tokio::runtime::Builder::new_current_thread().enable_all().build().expect("rt")
@@ -236,7 +294,7 @@ pub fn enter_private_netns() -> bool {
 /// namespace; collects the JSON lines they print. None if namespaces are unavailable.
 pub fn run_sharded(prop: &str, tier: &str, shards: usize) -> Option<Vec<serde_json::Value>> {
     let exe = std::env::current_exe().ok()?;
-    let mut children = Vec::new();
+    let mut children: Vec<std::process::Child> = Vec::new();
     for i in 0..shards {
         let ch = std::process::Command::new(&exe)
             .args(["e4-shard", prop, tier, &i.to_string(), &shards.to_string()])
@@ -249,14 +307,49 @@ pub fn run_sharded(prop: &str, tier: &str, shards: usize) -> Option<Vec<serde_js
     }
     let mut out = Vec::new();
     let mut ok = true;
-    for ch in children {
-        let o = ch.wait_with_output().ok()?;
-        if o.status.code() == Some(77) {
+    // the shards enforce a per-case deadline themselves; this is the backstop
+    let deadline = Duration::from_secs(if tier == "thorough" { 3600 } else { 600 });
+    let t0 = Instant::now();
+    let mut readers = Vec::new();
+    for ch in children.iter_mut() {
+        let mut so = ch.stdout.take()?;
+        readers.push(std::thread::spawn(move || {
+            let mut s = String::new();
+            let _ = std::io::Read::read_to_string(&mut so, &mut s);
+            s
+        }));
+    }
+    for (mut ch, rd) in children.into_iter().zip(readers) {
+        let status = loop {
+            match ch.try_wait() {
+                Ok(Some(st)) => break Some(st),
+                Ok(None) => {
+                    if t0.elapsed() > deadline {
+                        let _ = ch.kill();
+                        let _ = ch.wait();
+                        break None;
+                    }
+                    std::thread::sleep(Duration::from_millis(20));
+                }
+                Err(_) => break None,
+            }
+        };
+        let stdout = rd.join().unwrap_or_default();
+        struct O {
+            status: Option<std::process::ExitStatus>,
+            stdout: Vec<u8>,
+        }
+        let o = O { status, stdout: stdout.into_bytes() };
+        let Some(st) = o.status else {
+            out.push(serde_json::json!({"machinery": format!("e4 shard did not finish within {} s and was killed", deadline.as_secs())}));
+            continue;
+        };
+        if st.code() == Some(77) {
             ok = false;
             continue;
         }
-        if !o.status.success() {
-            out.push(serde_json::json!({"machinery": format!("e4 shard exited with {:?}", o.status)}));
+        if !st.success() {
+            out.push(serde_json::json!({"machinery": format!("e4 shard exited with {:?}", st)}));
         }
         for l in String::from_utf8_lossy(&o.stdout).lines() {
             if let Ok(v) = serde_json::from_str::<serde_json::Value>(l) {
